@@ -4,7 +4,8 @@ From PB Require Import lib.J model.M_join exec.X_join model.M_perdict.
 Import ListNotations.
 Open Scope Z_scope.
 
-Definition pv (v : pval) : J := match v with VNone => JS "None" | VInt z => JZ z end.
+Definition pv (v : pval) : J :=
+  match v with VNone => JS "None" | VInt z => JZ z | VList b l => JL [JS (if b then "tuple" else "list"); JL (map JZ l)] end.
 Definition jkey (k : key) : J := JL (map (enc_cell false) k).
 Definition jrow (r : key * pval) : J := JL [jkey (fst r); pv (snd r)].
 Definition jresult (r : result) : J :=
@@ -36,3 +37,7 @@ Definition run_perdictN (c : list arg * list datain * expin) : J :=
 Definition run_pjoin (args : list arg) : J :=
   if negb (any_table args None XAbsent) then JL [JS "pjoin"; JL [JL [jkey []; JL (map pv (row_args args []))]]]
   else JL [JS "pjoin"; JL (map (fun k => JL [jkey k; JL (map pv (row_args args k))]) (result_keys args None XAbsent))].
+
+(* two consecutive calls (the second reuses the tables of the first under other parameter names) *)
+Definition run_perdict2 (c : (list arg * datain * expin) * (list arg * datain * expin)) : J :=
+  JL [run_perdict (fst c); run_perdict (snd c)].
